@@ -4,7 +4,7 @@ import SqVerif.VNetWFMerge2
 L2 — `_two_qubit_gate` (all placements) preserves well-formedness, never fails for
 capacity reasons, and the step relation as a whole preserves `WFp` (C02 / C07).
 -/
-namespace SqVerif.VNet
+namespace SqVerif.VNet.WFP
 open List
 
 /-! ### `remote_new_register` -/
@@ -635,4 +635,4 @@ theorem wfp_step {s : Net} (w : WFp none s) (op : Op) : WFp none (step s op).1 :
   | send h b => exact wfp_stepSend w h b
   | measure h ip o => exact wfp_stepMeasure w h ip o
 
-end SqVerif.VNet
+end SqVerif.VNet.WFP
